@@ -632,7 +632,7 @@ func writeEvidence(verif, prop, tier string, seed uint64, lf *LemmaFile, results
 		lemmas = append(lemmas, map[string]interface{}{
 			"lemma": jr.lemma.Name, "harness": r.Name, "shard": r.Shard, "package": r.Pkg, "bounds": bounds, "cuts_and_stubs": jr.lemma.Cuts,
 			"functions_encoded": fns, "paths": r.Paths, "ssa_steps": r.Steps, "forks": r.Forks, "path_ends": r.Ended,
-			"queries": map[string]interface{}{"total": r.Solver.Queries, "unsat": r.Solver.Unsat, "sat": r.Solver.Sat, "unknown": r.Solver.Unknown, "errors": r.Solver.Errors, "cache_hits": r.Solver.CacheHits, "by_solver": r.Solver.BySolver},
+			"queries":  map[string]interface{}{"total": r.Solver.Queries, "unsat": r.Solver.Unsat, "sat": r.Solver.Sat, "unknown": r.Solver.Unknown, "errors": r.Solver.Errors, "cache_hits": r.Solver.CacheHits, "by_solver": r.Solver.BySolver},
 			"solver_s": round1(r.Solver.TimeS), "solver_max_query_s": round1(r.Solver.MaxS), "wall_s": round1(r.WallS),
 			"assertions": asserts, "unwinding_assertions": unwindWord(r), "vacuity_twin": twin,
 			"translator_validation_runs": jr.tvRuns, "translator_validation_mismatches": len(jr.tvMismatch),
@@ -656,16 +656,16 @@ func writeEvidence(verif, prop, tier string, seed uint64, lf *LemmaFile, results
 			"states": max(paths, 1), "transitions": max(steps, 1), "traces_validated_against_impl": tvTotal - tvBad,
 			"obligations": obl, "discharged": dis, "obligations_folded_to_true_by_simplifier": triv,
 			"evaluations": max(obl, 1), "distinct_nontrivial": len(nontrivial),
-			"rule":        "one obligation = one (path, assertion) pair; states = explored feasible paths, transitions = SSA instructions interpreted; distinct_nontrivial counts distinct (harness, assertion label) pairs that needed at least one solver query (not folded to true by constant propagation)",
-			"checker_cmd": fmt.Sprintf("/verif/bin/vcheck run --prop %s --tier %s", prop, tier),
+			"rule":         "one obligation = one (path, assertion) pair; states = explored feasible paths, transitions = SSA instructions interpreted; distinct_nontrivial counts distinct (harness, assertion label) pairs that needed at least one solver query (not folded to true by constant propagation)",
+			"checker_cmd":  fmt.Sprintf("/verif/bin/vcheck run --prop %s --tier %s", prop, tier),
 			"trusted_base": []string{"engine /verif/engine (go/ssa -> SMT-LIB2 symbolic interpreter)", "z3 5.1.0 (z3-new), cvc5 1.0", "golang.org/x/tools v0.29.0 go/ssa", "reference specification in /verif/harness/*/spec*.go", "stubs and cuts listed per lemma"},
-			"lemmas":      lemmas, "samples": samples,
-			"solver": map[string]interface{}{"queries": stats.Queries, "unsat": stats.Unsat, "sat": stats.Sat, "unknown": stats.Unknown, "errors": stats.Errors, "time_s": round1(stats.TimeS), "max_query_s": round1(stats.MaxS), "by_solver": stats.BySolver},
+			"lemmas":       lemmas, "samples": samples,
+			"solver":                    map[string]interface{}{"queries": stats.Queries, "unsat": stats.Unsat, "sat": stats.Sat, "unknown": stats.Unknown, "errors": stats.Errors, "time_s": round1(stats.TimeS), "max_query_s": round1(stats.MaxS), "by_solver": stats.BySolver},
 			"encoding_regenerated_from": "/repo working tree at run time (go/packages + overlay harness)", "load_s": round1(loadS),
-			"translator_validation": map[string]interface{}{"seeds_per_harness": nSeeds, "runs": tvTotal, "mismatches": tvBad},
-			"known_findings_matched":    knownHits,
-			"exit":                      exit,
-			"explanation":               "bounded symbolic execution of the real functions; every verdict holds only within the bounds listed per lemma",
+			"translator_validation":  map[string]interface{}{"seeds_per_harness": nSeeds, "runs": tvTotal, "mismatches": tvBad},
+			"known_findings_matched": knownHits,
+			"exit":                   exit,
+			"explanation":            "bounded symbolic execution of the real functions; every verdict holds only within the bounds listed per lemma",
 		},
 		"assumptions": assume,
 		"wall_s":      round1(wallS),
